@@ -127,6 +127,101 @@ CHECKS = {
          'after every job.',
          'in-tree mock host; <= 3 PRs',
          'DESIGN.md 4/C19'),
+ 'C02': ('fault_enumeration',
+         'enumeration of crash points and single rejected refs (from a dry '
+         'run of each job) on Hypothesis-generated histories; recovery and '
+         'differential comparison with the uninterrupted run',
+         'E1',
+         'For selected jobs of generated histories every crash-before / '
+         'crash-after placement around each remote-mutating operation and '
+         'every single-ref rejection (once, persistent) is executed from one '
+         'snapshot on the real code and real git; all-or-none landing and the '
+         'C01 chain are checked after every ref transaction; a fresh instance '
+         'then recovers and destination trees are compared with the '
+         'uninterrupted run under the same content-keyed CI policy.',
+         'git ref transactions atomic; create/delete-branch jobs judged at the '
+         'interrupted state only; quick tier samples faults per job',
+         'DESIGN.md 4/C02'),
+ 'C03': ('exploration',
+         'Hypothesis-generated queue histories with a generated status matrix '
+         'prelude; monitor over the ref journal against the harness own CI '
+         'table',
+         'E1',
+         'Every destination movement made by Bert-E in queue / skip-queue '
+         'modes must land on a commit the harness itself reported SUCCESSFUL '
+         '(force merge and bypassed direct merges exempt).',
+         'in-tree mock host; bounded histories (<= 4 queued PRs)',
+         'DESIGN.md 4/C03'),
+ 'C05': ('exploration',
+         'exhaustive enumeration of queues x cascades x destination choices x '
+         'status matrices on the real QueueCollection over an in-memory commit '
+         'DAG; disagreements and a sample replayed on real git',
+         'E2',
+         'All queues of <= 3 PRs (quick) / 4 PRs on <= 12 queue commits '
+         '(thorough) are compared with the longest-all-green-prefix oracle; '
+         'metamorphic state-alphabet and add-order checks.',
+         'git replaced by an in-memory DAG validated against real git on a '
+         'sample; sub-spaces that are complete are listed in evidence',
+         'DESIGN.md 4/C05'),
+ 'C09': ('exploration',
+         'exhaustive single-major universes + seeded cross-major sample on '
+         'the real BranchCascade against a statement-derived oracle '
+         'self-tested on the 39 QuickTest tables; discovery-order metamorphic '
+         'relation',
+         'E2',
+         'Branch sets x tag sets x destination, each in 3 discovery orders.',
+         'fake repository object; EITHER cells counted',
+         'DESIGN.md 4/C09'),
+ 'C11': ('exploration',
+         'full product of source names x issue states x settings x bypass '
+         'sources, and C09 cascades x fixVersions subsets, on the real '
+         'jira_checks with a scripted JiraIssue',
+         'E2',
+         'First-failing-check oracle in documented order; thorough tier is '
+         'the complete product.',
+         'Jira replaced by a scripted class; x.y.z.0 EITHER',
+         'DESIGN.md 4/C11'),
+ 'C12': ('exploration',
+         'Hypothesis-generated hold scenarios with a never-held probe path '
+         'from the pre-hold snapshot; foreign PR sweep',
+         'E1',
+         'While a hold is present no w/ or q/ ref is created for the PR and it '
+         'is not merged; after the lift progress and ref shape equal the '
+         'never-held world; foreign PRs leave host and refs untouched.',
+         'holds added after queueing are statistics; non-numeric dependency '
+         'EITHER',
+         'DESIGN.md 4/C12'),
+ 'C16': ('fault_enumeration',
+         'taint sentinel + enumeration of (git command, fail/hang) faults per '
+         'job kind at DEBUG/INFO on real Bert-E with the production-shaped '
+         'credentialed URL; Hypothesis-generated GitHub client flows over a '
+         'scripted transport with failing answers',
+         'E1+E4',
+         'Every log record with its exception chain, fd-level stdout/stderr, '
+         'job reports and comments are searched for the password in three '
+         'encodings and for the JWT / installation token.',
+         'only the listed encodings of the secret are searched; quick tier: '
+         'one command per template',
+         'DESIGN.md 4/C16'),
+ 'C17': ('exploration',
+         'exhaustive ordered run lists grouped by multiset (permutation '
+         'orbits) on the real AggregatedWorkflowRuns; exhaustive <=4/5-op '
+         'cache histories + Hypothesis against an LRU model family',
+         'E2/E4',
+         'Aggregation verdict vs the literal statement and permutation '
+         'invariance; cache answers vs host truth and stickiness of '
+         'SUCCESSFUL until eviction, for the GitHub and Bitbucket classes.',
+         'scripted HTTP transport; ranking of non-success conclusions EITHER',
+         'DESIGN.md 4/C17'),
+ 'C20': ('exploration',
+         'Hypothesis-generated states with queued PRs followed by generated '
+         'admin jobs; independent well-formedness predicate and journal '
+         'oracle',
+         'E1',
+         'create/delete branch, rebuild/delete/force-merge queues over 21 '
+         'candidate names and generated branch_from values.',
+         'jobs ending in unexpected exceptions are statistics',
+         'DESIGN.md 4/C20'),
 }
 
 NA_REASON = 'check not built yet in this session (work in progress; see DESIGN.md section 8)'
